@@ -383,9 +383,10 @@ impl Story {
 
                     let min_value = min_int.unwrap();
                     let max_value = max_int.unwrap();
-                    // 32-bit wrapping like the reference engine: an over-wide range comes out non-positive and is refused below
+                    // 32-bit wrapping like the reference engine: a range wider than i32 comes out non-positive
+                    // and is refused; reversed bounds are refused outright (far apart, they would wrap to a positive range)
                     let random_range = max_value.wrapping_sub(min_value).wrapping_add(1);
-                    if random_range <= 0 {
+                    if max_value < min_value || random_range <= 0 {
                         return Err(StoryError::InvalidStoryState(format!(
                             "RANDOM was called with minimum as {} and maximum as {}. The maximum must be larger",
                             min_value, max_value
